@@ -465,7 +465,9 @@ func cmdLock(jobs int) int {
 		var names []string
 		for _, ob := range pr.obs {
 			if ob.Result == "unsat" {
-				names = append(names, ob.Name)
+				if lockable(ob) {
+					names = append(names, ob.Name)
+				}
 			} else if !isKnown[p+"|"+ob.Name] && !matchKnown(ob.Name) {
 				fmt.Printf("not locked (not discharged): %s %s %s\n", p, ob.Name, ob.Result)
 				if ob.Result == "error" {
@@ -534,4 +536,18 @@ func knownHitSMT(pr *propRun, hits []string) []string {
 		}
 	}
 	return out
+}
+
+// lockable: only obligations that come from a contract clause (or a table / flow / frame fact) are locked. Implicit safety
+// obligations, call-site preconditions and per-component frame obligations follow the shape of the code: a harmless
+// refactor (extracting a helper, removing an index expression) renames or removes them, which is not a violation.
+func lockable(ob *Obligation) bool {
+	k := strings.TrimPrefix(ob.Kind, "supporting:")
+	switch k {
+	case "post", "inv-entry", "inv-preserve", "each-iteration", "at_call", "assert", "exit", "lemma", "table", "loop-shape", "flow":
+		return !strings.HasPrefix(strings.TrimPrefix(ob.Name, ob.Fn+"/"), "frame:")
+	case "frame":
+		return ob.Fn == "frame" // the per-line call-tree frame facts, not the per-component frame obligations of a function
+	}
+	return false
 }
